@@ -130,6 +130,14 @@ def gibbs_save_load_continue(h, cls, d, hist, limits):
             h.same(f"loaded: active proposal kind {i}", q.proposal.__name__, p.proposal.__name__)
             if p.bounded:
                 h.eq(f"loaded: boundaries {i}", np.array([q.lower, q.upper], dtype=object), np.array([p.lower, p.upper], dtype=object))
+            # every other numeric field the parameter object carries (growth factor, target rate, check schedule ...):
+            # fields only consulted at a later proposal-width check are state all the same
+            for name in sorted(set(vars(p)) & set(vars(q))):
+                u, v = vars(p)[name], vars(q)[name]
+                if callable(u) or isinstance(u, (bool, str, np.ndarray, list, tuple, dict)) or u is None:
+                    continue
+                if isinstance(u, (int, float, np.integer, np.floating)) or type(u).__name__ in ("SymReal", "SymInt"):
+                    h.eq(f"loaded: parameter {i} field '{name}'", v, u)
         # identical continuation under identical random draws
         dr = Draws(h, "chain")
         nd = 1 if limits else 2
